@@ -122,6 +122,16 @@ def run_case(cfg):
     p = pathlib.Path(d) / "o.tar"
     try:
         th, op = w.cards(*w.cfg_cards(cfg))
+        if cfg.get("_decoy"):
+            # an earlier solve in the same process with the same theory but another starting point: nothing of it
+            # (cached atlases, couplings, recipes) may reach the solve under observation
+            mu0, nf0 = cfg["init"]
+            th2, op2 = w.cards(*w.cfg_cards(dict({k: v for k, v in cfg.items() if not k.startswith("_")}, init=[mu0 * 1.37, nf0], targets=[[mu0 * 1.52, nf0]])))
+            try:
+                eko.solve(th2, op2, pathlib.Path(d) / "decoy.tar")
+            except Exception:
+                pass
+            log.clear()
         try:
             eko.solve(th, op, p)
         except (NotImplementedError, ValueError) as e:
@@ -259,6 +269,8 @@ def configs(ck):
                 c["targets"] = ([[wall, hq - 1], [wall * float(rng.uniform(1.4, 2.5)), hq], [wall, hq]] if up else [[wall, hq], [max(1.3, wall / float(rng.uniform(1.2, 1.6))), hq - 1], [wall, hq - 1]])[: int(rng.integers(2, 4))]
                 c["inversion"] = None if up else str(rng.choice(["exact", "expanded"]))
                 c["scvar"], c["xif"] = [(None, 1.0), ("expanded", 2.0), ("exponentiated", 0.5)][int(rng.integers(3))]
+            if len(cfgs) % 3 == 1:
+                c["_decoy"] = True
             cfgs.append(c)
     return cfgs
 
